@@ -21,7 +21,9 @@ def new_interp(prog):
     def send_message(I, st, f, args, fr):
         okk = I.fresh_bool('send_ok')
         target = models_std.deref_val(I, st, args[0])
-        st.emit('SEND', args[1], okk, getattr(target.fields[0], 'ident', None) if isinstance(target, Agg) and target.fields else None)
+        while isinstance(target, Agg) and target.fields and isinstance(target.fields[0], (Agg, BoxV, Ref)):
+            target = models_std.deref_val(I, st, target.fields[0])
+        st.emit('SEND', args[1], okk, getattr(target.fields[0], 'ident', None) if isinstance(target, Agg) and target.fields else getattr(target, 'ident', None))
         outs = []
         for s2, succ in models_std.branch(I, st, okk):
             outs.append(Outcome(s2, 'ret', models_std.ok(UNIT) if succ else models_std.err(Enum('MessagingErr', 'SendErr', 0, (args[1],)))))
@@ -50,6 +52,30 @@ def new_interp(prog):
         st.ghost['spawned'] = st.ghost.get('spawned', ()) + (c,)
         return I.ret(st, Agg('JoinHandle', (I.mk_int(c, 'usize'),)))
 
+    # ---- tokio JoinSet: a set of tasks; join_next completes with the result of any one task that is ready
+    @I.model(r'(^|::)JoinSet::<.*>::new$', 'JoinSet::new')
+    def m_js_new(I, st, f, args, fr):
+        return I.ret(st, Agg('JoinSet', ()))
+
+    @I.model(r'(^|::)JoinSet::<.*>::spawn(::<.*>)?$', 'JoinSet::spawn (task driven through join_next)')
+    def m_js_spawn(I, st, f, args, fr):
+        r = args[0]
+        js = I.read(st, r.cell, r.path)
+        c = st.alloc(args[1])
+        I.write(st, r.cell, r.path, Agg('JoinSet', js.fields + (I.mk_int(c, 'usize'),)))
+        st.emit('JS_SPAWN', c)
+        return I.ret(st, Opaque('AbortHandle'))
+
+    @I.model(r'(^|::)JoinSet::<.*>::len$', 'JoinSet::len')
+    def m_js_len(I, st, f, args, fr):
+        js = models_std.deref_val(I, st, args[0])
+        return I.ret(st, I.mk_int(len(js.fields), 'usize'))
+
+    @I.model(r'(^|::)JoinSet::<.*>::join_next$', 'JoinSet::join_next (future)')
+    def m_js_join_next(I, st, f, args, fr):
+        return I.ret(st, Agg('JoinNext', (args[0],)))
+    I.type_drops['JoinSet'] = lambda I, st, v, ref: I.ret(st, UNIT)
+
     def chan_value(I, st, o, idterm):
         return [(st, Opaque('reply', ident=('reply', o.oid), info=idterm))]
     I.hooks['chan_value'] = chan_value
@@ -68,6 +94,28 @@ def new_interp(prog):
     prev = I.hooks.get('poll_other')
 
     def poll_other(I, st, v, cell, path, cx, fr):
+        if isinstance(v, Agg) and v.ty == 'JoinNext':
+            r = v.fields[0]
+            js = I.read(st, r.cell, r.path)
+            if not js.fields:
+                return [Outcome(st, 'ret', models_std.ready(models_std.NONE))]
+            outs = []
+            for i, tc in enumerate(js.fields):
+                s1 = st.fork() if i < len(js.fields) - 1 else st
+                c = tc.concrete()
+                for o in I.poll_at(I, s1, c, (), cx, fr):
+                    if o.kind == 'ret' and o.val.variant == 'Ready':
+                        cur = I.read(o.st, r.cell, r.path)
+                        I.write(o.st, r.cell, r.path, Agg('JoinSet', tuple(x for x in cur.fields if x.concrete() != c)))
+                        o.st.emit('JS_DONE', c)
+                        outs.append(Outcome(o.st, 'ret', models_std.ready(models_std.some(models_std.ok(o.val.fields[0])))))
+                    elif o.kind == 'unwind':
+                        cur = I.read(o.st, r.cell, r.path)
+                        I.write(o.st, r.cell, r.path, Agg('JoinSet', tuple(x for x in cur.fields if x.concrete() != c)))
+                        outs.append(Outcome(o.st, 'ret', models_std.ready(models_std.some(models_std.err(Opaque('JoinError'))))))
+                    else:
+                        outs.append(o)
+            return outs
         if not (isinstance(v, Agg) and v.ty == 'TokioTimeout'):
             return prev(I, st, v, cell, path, cx, fr) if prev else None
         outs = []
@@ -328,6 +376,65 @@ def check_reply_port(ctx, prog):
     ctx.note_witness('C09.reply_port.both_outcomes', len(outs) >= 2)
 
 
+def check_multi(ctx, prog, n=2):
+    """multi_call over n actors: result i is the reply (or the failure) of the i-th actor's own port, whatever order the tasks finish in"""
+    fn = 'rpc::multi_call'
+    body = prog.find_fn(fn)
+    if body is None:
+        raise Inconclusive('multi_call not found')
+    ctx.encoded(prog, body)
+    seen = set()
+    for with_tmo in (True, False):
+        I = new_interp(prog)
+        hook_poll(I)
+        I.max_paths = 200000
+        st = State()
+        d = I.fresh_int('timeout_ms', 'u128', st)
+        tmo = models_std.some(I.mk_duration(d)) if with_tmo else models_std.NONE
+        refs = [Agg('ActorRef', (Agg('ActorCell', (Opaque('props', ident='target%d' % i),)), Agg('PhantomData', ()))) for i in range(n)]
+        arr = st.alloc(Agg('[]', refs))
+        st, coro = lc.make_coro(I, st, prog, fn, [Ref(arr, ()), Opaque('builder', ident='builder'), tmo])
+        cc = st.alloc(coro)
+        res = drive(I, st, cc, 4)
+        ctx.absorb(I)
+        ctx.paths += len(res)
+        for k, (s, kind, v, npolls) in enumerate(res):
+            name = 'multi.%s.path%d' % ('timeout' if with_tmo else 'no_timeout', k)
+            cex = lambda m, with_tmo=with_tmo: replay('multi', {'timeout': with_tmo})
+            tr = s.trace
+            builds = [e for e in tr if e[0] == 'BUILD']
+            sends = [e for e in tr if e[0] == 'SEND']
+            claims = {'completes_without_panic': kind in ('ready', 'budget')}
+            claims['request_i_goes_to_actor_i_with_its_own_fresh_port'] = (len(builds) == len(sends) and len({port_oid(b[1]) for b in builds}) == len(builds)
+                                                                          and all(sends[i][1].info is builds[i][1] and sends[i][3] == 'target%d' % i for i in range(len(sends))))
+            if kind == 'ready' and v.variant == 'Ok':
+                vec = v.fields[0]
+                okk = len(vec.fields) == n and len(builds) == n
+                if okk:
+                    for i, r in enumerate(vec.fields):
+                        oid = port_oid(builds[i][1])
+                        if r.variant == 'Success':
+                            okk = okk and isinstance(r.fields[0], Opaque) and r.fields[0].ident == ('reply', oid)
+                            seen.add('Success')
+                        elif r.variant == 'SenderError':
+                            ob = s.objs.get(oid)
+                            ctx.prove('%s.result%d_sender_error_means_dropped_without_reply' % (name, i), s.pc, z3.And(ob['txdrop'], ob['st'] != 1), group='C09.multi.sender_error_means_dropped_without_reply',
+                                      key='C09.multi', on_cex=cex)
+                            seen.add('SenderError')
+                        elif r.variant == 'Timeout':
+                            okk = okk and with_tmo and not any(e[0] == 'RECV' and e[1] == oid for e in tr)
+                            seen.add('Timeout')
+                claims['result_i_is_the_outcome_of_actor_i_own_port'] = okk
+                ctx.prove(name + '.ok_only_when_every_send_succeeded', s.pc, z3.And([e[2] for e in sends]) if sends else z3.BoolVal(True), group='C09.multi.ok_only_when_every_send_succeeded', key='C09.multi', on_cex=cex)
+            elif kind == 'ready':
+                seen.add('Err')
+                ctx.prove(name + '.err_only_when_a_send_failed', s.pc, z3.Not(sends[-1][2]) if sends else z3.BoolVal(False), group='C09.multi.err_only_when_a_send_failed', key='C09.multi', on_cex=cex)
+                claims['failed_send_awaits_nothing'] = not any(e[0] == 'POLL_RX' for e in tr)
+            lp.record(ctx, name, s, claims, 'C09.multi', sample={'function': fn, 'timeout': with_tmo, 'result': repr(v)[:90]} if k < 3 else None, on_cex=cex)
+    for w in ('Success', 'SenderError', 'Timeout', 'Err'):
+        ctx.note_witness('C09.multi.' + w, w in seen)
+
+
 _replayed = {}
 
 
@@ -343,7 +450,8 @@ def run(ctx):
     prog, info = lc.load()
     ctx.bounds.update({'calls': 'one call per run (a fresh oneshot pair per call is shown structurally: concurrent calls share nothing but the target mailbox, see C02); timeout value fully symbolic',
                        'environment': 'before every poll of the reply receiver the callee side may have replied (any value), dropped the port, or done nothing; up to 3 polls',
-                       'outside': 'multi_call (JoinSet of n tasks; its per-index threading is not executed here); tokio timer accuracy and the oneshot implementation (contracts); '
+                       'multi_call': 'thorough tier: 2 actors, tasks completing in either order, up to 4 polls of the outer future',
+                       'outside': 'multi_call with more than 2 actors; tokio timer accuracy and the oneshot implementation (contracts); '
                                   'that a dying callee really drops queued ports is C08 (ActorPortSet::drop) and C07 (refused sends)'})
     ctx.assumptions += ['tokio oneshot contract: a value sent is received exactly once by the paired receiver; a dropped sender yields RecvError once nothing is queued',
                         'tokio::time::timeout(d, f): Ready(Ok(x)) when f completes with x; may complete with Elapsed only at a poll where f was pending',
@@ -352,6 +460,8 @@ def run(ctx):
     check_call(ctx, prog, 'DerivedActorRef::<TMessage>::call', 'derived')
     check_forward(ctx, prog)
     check_reply_port(ctx, prog)
+    if ctx.tier != 'quick':
+        check_multi(ctx, prog)
 
 
 def replay_file(path):
